@@ -163,8 +163,15 @@ class AWSElastiCacheHashClient(HashClient):
         for server in self._get_nodes_list():
             self.add_server(normalize_server_spec(server))
 
-        for client in old_clients.values():
+        for key, client in old_clients.items():
+            if key not in self.clients:
+                try:
+                    self.hasher.remove_node(key)
+                except ValueError:
+                    pass  # already evicted from the rotation
             client.close()
+        self._failed_clients.clear()
+        self._dead_clients.clear()
 
     def _get_nodes_list(self) -> list[tuple[str, int]]:
         """
